@@ -22,6 +22,8 @@ func main() {
 		cmdClient(os.Args[2:])
 	case "ref":
 		cmdRef(os.Args[2:])
+	case "reload":
+		cmdReload(os.Args[2:])
 	default:
 		fmt.Fprintln(os.Stderr, "unknown command", os.Args[1])
 		os.Exit(2)
